@@ -1015,7 +1015,9 @@ def fam_fold(tier, seed, extra=()):
     """constant vs hidden-constant twins at the operator level"""
     out = []
     pairs = grid_pairs(SMALL_GRID, [e for e in extra if len(e) == 2 and all(isinstance(x, int) for x in e)])
-    for op in ("+", "-", "*", "/", "%", "<<", ">>", "&", "|", "^", "<", "<=", ">", ">=", "==", "!="):
+    for op in ("+", "-", "*", "/", "%", "**", "<<", ">>", "&", "|", "^", "<", "<=", ">", ">=", "==", "!="):
+        # (`**` is not folded on the pinned tree; if it ever is, the folded value must be the run-time value for EVERY
+        #  exponent, including those that do not fit 32 bits)
         out += [c for c in binop_cases(op, pairs, tag="fold/") if "/compound/" not in c.id]
     for op in ("+", "-", "*", "/"):
         out += binop_cases(op, grid_pairs([0.0, -0.0, 1.0, -1.0, 3.5, math.inf, -math.inf, math.nan]), kind="float", tag="fold/")
